@@ -354,7 +354,19 @@ pub fn run(cs: &Case) -> Outcome {
     out
 }
 
-fn strategy() -> BoxedStrategy<Case> {
+/// cross-field constraints of the generators (see c07::in_domain)
+pub fn in_domain(cs: &Case) -> bool {
+    use crate::props::c07::{map_ok, tree_ok};
+    cs.global.iter().all(map_ok)
+        && !cs.backends.is_empty()
+        && cs.backends.iter().all(tree_ok)
+        && cs.ops.iter().all(|o| match o {
+            Op::Mount { map, .. } => map.iter().all(map_ok),
+            _ => true,
+        })
+}
+
+pub fn strategy() -> BoxedStrategy<Case> {
     let mapopt = prop_oneof![3 => Just(None), 1 => map_strategy().prop_map(Some)];
     let op = prop_oneof![
         6 => (any::<u8>(), 0u8..PATHS.len() as u8, mapopt.clone()).prop_map(|(b, path, map)| Op::Mount { b, path, map }),
